@@ -429,9 +429,27 @@ Proof.
     destruct (wrap_chunks W (if first then "" else blanks cont) (blanks cont) l) as [a|] eqn:A; [|discriminate].
     destruct (wrap_lines W cont first r) as [b|] eqn:B; [|discriminate].
     injection H as <-. apply Forall_app. split.
-    + eapply wrap_width; [| |exact A].
-      * destruct first; [simpl; lia | rewrite slen_blanks; exact Hc].
-      * rewrite slen_blanks; exact Hc.
+    + assert (Ha : Forall (fun l0 => slen l0 <= W) a).
+      { eapply wrap_width; [| |exact A].
+        * destruct first; [simpl; lia | rewrite slen_blanks; exact Hc].
+        * rewrite slen_blanks; exact Hc. }
+      rewrite Forall_forall in *. intros x Hx. apply filter_In in Hx. apply Ha. tauto.
+    + eapply IH; eauto.
+Qed.
+
+(* no line written by wrap_lines consists of blanks only (such a line would end the block) *)
+Lemma wrap_lines_no_blank_line : forall W cont first lines out,
+  wrap_lines W cont first lines = Some out -> Forall (fun l => all_blank l = false) out.
+Proof.
+  intros W cont first lines. revert first.
+  induction lines as [|l r IH]; intros first out H; simpl in H.
+  - injection H as <-. constructor.
+  - destruct (all_blank (String.concat "" l)); [eapply IH; eauto|].
+    destruct (wrap_chunks W (if first then "" else blanks cont) (blanks cont) l) as [a|] eqn:A; [|discriminate].
+    destruct (wrap_lines W cont first r) as [b|] eqn:B; [|discriminate].
+    injection H as <-. apply Forall_app. split.
+    + rewrite Forall_forall. intros x Hx. apply filter_In in Hx. destruct Hx as [_ Hx].
+      destruct (all_blank x); [discriminate|reflexivity].
     + eapply IH; eauto.
 Qed.
 
